@@ -91,7 +91,20 @@ def reload_scripts(rng, n):
         after = [svcs[1]]
         cfg = proto.Config(svcs, timeout=rng.choice([None, 3600]))
         kind = ["more-then-removed", "leaver-then-removed", "more-then-removed", "owed-answer", "two-waiters", "leaver-then-removed", "retry-then-removed",
-                "more-then-replaced", "removed-then-leave"][k_ % 9]
+                "more-then-replaced", "removed-then-leave", "ok-then-slot-reused"][k_ % 10]
+        if kind == "ok-then-slot-reused":
+            # chal.svc says OK; one reload removes it, the next adds new.svc (which may take its place in the table); new.svc never
+            # answers and the client is accepted by its timeout: a class rule asking for new.svc's OK must not match
+            cfg = proto.Config(svcs, timeout=3600, rules=[{"name": "a1", "xreply_ok": "new.svc", "class": "vip"}, {"name": "z9", "class": "plain"}], use_class=True)
+            cid = 5
+            newp = rng.choice(["login", "login-ipr", "dronecheck", "combined"])
+            ev = [{"t": "announce", "id": cid, "ip": "192.0.2.5", "port": 1005}, {"t": "host", "id": cid, "name": "h5.example"}, {"t": "ident", "id": cid, "name": "id5"},
+                  {"t": "password", "id": cid, "text": "+x acct5 pw"}, {"t": "reply", "svc": "chal.svc", "tag": "5_1", "text": rng.choice(["OK acct5", "OK"])},
+                  {"t": "reload", "services": [list(svcs[1])]}, {"t": "reload", "services": [list(svcs[1]), ["new.svc", newp]]},
+                  {"t": "nick", "id": cid, "name": "n5"}, {"t": "userinfo", "id": cid, "user": "u5", "real": "R"},
+                  {"t": "reply", "svc": "keep.svc", "tag": "5_1", "text": "OK"}, {"t": "hurry", "id": cid}, {"t": "timeout", "id": cid}, {"t": "stats"}]
+            out.append((cfg, ev))
+            continue
         if kind == "more-then-replaced":
             # the challenger is removed and ANOTHER service is added by the same reload (it may take the challenger's place in the table)
             after = [svcs[1], ("new.svc", rng.choice(["login", "login-ipr", "dronecheck"]))]
